@@ -119,6 +119,7 @@ def decFn2 (j : Json) : Except String Fn2 := do
   | [.str "raise_if_mod", k, r, .str exc] => do let n ← getNat k; if n = 0 then throw "bad-case" else pure (.raiseIfMod n (← getNat r) exc)
   | [.str "pair_last"] => pure .pairLast
   | [.str "append_fst"] => pure .appendFst
+  | [.str "append_raise_if_mod", k, r] => do let n ← getNat k; if n = 0 then throw "bad-case" else pure (.appendRaiseIfMod n (← getNat r))
   | _ => throw "bad-case: fn2"
 
 def decOptFn1 (j : Json) : Except String Fn1 :=
